@@ -44,7 +44,7 @@ Definition packet_validate_basic (p : Packet) : res unit :=
   else Ok tt.
 
 Definition signer_check (signer_ok : bool) : res unit := if signer_ok then Ok tt else Err.
-Definition nonempty (b : bytes) : res unit := if nlen b =? 0 then Err else Ok tt.
+Definition nonempty_check (b : bytes) : res unit := if nlen b =? 0 then Err else Ok tt.
 (** !IsValidChannelID(id) -> error *)
 Definition valid_channel_id_check (id : bytes) : res unit :=
   do b <- is_valid_channel_id id; if b then Ok tt else Err.
@@ -72,7 +72,7 @@ Definition msg_v1_validate_basic (m : MsgV1) : res unit :=
   | ChanOpenTry port prev ch proof sg =>
       do _ <- port_identifier_validator port;
       if negb (bytes_eqb prev []) then Err
-      else do _ <- nonempty proof;
+      else do _ <- nonempty_check proof;
            if negb (ch_state ch =? 2) then Err
            else do _ <- channel_identifier_validator (cp_chan (ch_cp ch));
                 do _ <- signer_check sg; channel_validate_basic ch
@@ -80,12 +80,12 @@ Definition msg_v1_validate_basic (m : MsgV1) : res unit :=
       do _ <- port_identifier_validator port;
       do _ <- valid_channel_id_check chan;
       do _ <- channel_identifier_validator cpc;
-      do _ <- nonempty proof;
+      do _ <- nonempty_check proof;
       signer_check sg
   | ChanOpenConfirm port chan proof sg =>
       do _ <- port_identifier_validator port;
       do _ <- valid_channel_id_check chan;
-      do _ <- nonempty proof;
+      do _ <- nonempty_check proof;
       signer_check sg
   | ChanCloseInit port chan sg =>
       do _ <- port_identifier_validator port;
@@ -94,18 +94,18 @@ Definition msg_v1_validate_basic (m : MsgV1) : res unit :=
   | ChanCloseConfirm port chan proof sg =>
       do _ <- port_identifier_validator port;
       do _ <- valid_channel_id_check chan;
-      do _ <- nonempty proof;
+      do _ <- nonempty_check proof;
       signer_check sg
   | RecvPacket p proof sg =>
-      do _ <- nonempty proof; do _ <- signer_check sg; packet_validate_basic p
+      do _ <- nonempty_check proof; do _ <- signer_check sg; packet_validate_basic p
   | TimeoutMsg p proof ns sg =>
-      do _ <- nonempty proof;
+      do _ <- nonempty_check proof;
       if ns =? 0 then Err else do _ <- signer_check sg; packet_validate_basic p
   | TimeoutOnClose p proof pc ns sg =>
       if ns =? 0 then Err
-      else do _ <- nonempty proof; do _ <- nonempty pc; do _ <- signer_check sg; packet_validate_basic p
+      else do _ <- nonempty_check proof; do _ <- nonempty_check pc; do _ <- signer_check sg; packet_validate_basic p
   | AckMsg p ack proof sg =>
-      do _ <- nonempty proof; do _ <- nonempty ack; do _ <- signer_check sg; packet_validate_basic p
+      do _ <- nonempty_check proof; do _ <- nonempty_check ack; do _ <- signer_check sg; packet_validate_basic p
   end.
 
 (** ---------------------------------------------------------------- 04-channel/v2/types *)
@@ -172,12 +172,12 @@ Definition msg_v2_validate_basic (universal_err : bytes) (m : MsgV2) : res unit 
       else if (zlen pls =? 0)%Z then Err
       else do _ <- payloads_each pls; signer_check sg
   | RecvPacket2 p proof sg =>
-      do _ <- nonempty proof; do _ <- signer_check sg; packet_v2_validate_basic p
+      do _ <- nonempty_check proof; do _ <- signer_check sg; packet_v2_validate_basic p
   | AckMsg2 p acks proof sg =>
-      do _ <- nonempty proof; do _ <- ack_v2_validate universal_err acks;
+      do _ <- nonempty_check proof; do _ <- ack_v2_validate universal_err acks;
       do _ <- signer_check sg; packet_v2_validate_basic p
   | TimeoutMsg2 p proof sg =>
-      do _ <- nonempty proof; do _ <- signer_check sg; packet_v2_validate_basic p
+      do _ <- nonempty_check proof; do _ <- signer_check sg; packet_v2_validate_basic p
   end.
 
 (** ---------------------------------------------------------------- 02-client/types/msgs.go *)
@@ -253,7 +253,7 @@ Definition msg_client_validate_basic (m : MsgClient) : res unit :=
       do clientState <- unpack cs;
       do consensusState <- unpack cst;
       if negb (bytes_eqb (cs_type clientState) (cs_type consensusState)) then Err
-      else do _ <- nonempty pc; do _ <- nonempty pcs; do _ <- signer_check sg;
+      else do _ <- nonempty_check pc; do _ <- nonempty_check pcs; do _ <- signer_check sg;
            client_identifier_validator cid
   | RecoverClient sg subject substitute =>
       do _ <- signer_check sg;
